@@ -269,6 +269,27 @@ fn judge_setter_with_offset(rec: &mut Rec, i: i128, off: i32, doy: u32) {
     let exp = super::c09::model_set(local, 3, doy as i64);
     if let Ok(l) = exp {
         if !(representable(l + D) && representable(l - D) && representable(l - off as i128 * NS - D) && representable(l - off as i128 * NS + D)) {
+            // within a day of a range end: the N-th day may exist in local time while its UTC instant does not.
+            // Then only this much is demanded: a returned value is the N-th day of the same year (never a wrapped
+            // or neighbouring one) — refusing is fine, returning something else or panicking is not.
+            rec.bin("setdoy-offset/result-within-a-day-of-a-range-end");
+            let Some((start, _)) = sane_value(i, off) else {
+                rec.bin(super::diff::SKIP_START);
+                return;
+            };
+            let eu = l - off as i128 * NS;
+            let r = trap(|| start.set_day_of_year(doy).map(|x| (trap(|| read(&x)).ok(), trap(|| (x.year(), x.day_of_year())).ok())));
+            let wit = |obs: serde_json::Value| json!({"start_utc": show(i), "offset": off, "start_local": show(local), "set_day_of_year": doy, "model_local_result": show(l), "model_utc_result_representable": representable(eu), "observed": obs});
+            match r {
+                Err(p) => rec.violation(format!("C02|setter-offset|DateTime::set_day_of_year|panic-at-range-end|{},{}", p.class, p.site()), || wit(p.to_json())),
+                Ok(Err(_)) => {}
+                Ok(Ok((got, yd))) => {
+                    let right = representable(eu) && got == Some(eu) && (yd.is_none() || yd == Some((fields(l).year as i32, doy)));
+                    if !right {
+                        rec.violation("C02|setter-offset|DateTime::set_day_of_year|returned-another-day-at-range-end".to_string(), || wit(json!({"result_utc": got.map(show), "(year(), day_of_year())": format!("{:?}", yd)})));
+                    }
+                }
+            }
             return;
         }
     }
@@ -336,6 +357,27 @@ pub fn run(ctx: &Ctx) -> PropResult {
             }
         }));
     }
+    // consecutive calls whose day numbers differ by a power-of-two number of days or weeks: what a memo with a
+    // truncated or shifted key (week index << 6, day >> k, …) confuses, and independent random days never do
+    wls.push(Workload::cases("format_power_of_two_stride_pairs", ctx.count(20_000, 600_000), move |rec, _, rng| {
+        let d0 = match rng.below(3) {
+            0 => rng.range_i64(-800_000, 800_000),
+            1 => cal::days_from_civil(rng.range_i64(1900, 2100), 1, 1) + rng.range_i64(-5, 370),
+            _ => rng.range_i64(cal::MIN_DAY, cal::MAX_DAY),
+        };
+        fmt_judge(rec, d0, true);
+        let unit: i64 = *rng.pick(&[1i64, 7, 7, 146_097]);
+        for _ in 0..3 {
+            let j = rng.range_i64(8, 31);
+            let k = rng.range_i64(1, 4);
+            let d1 = d0 + *rng.pick(&[1i64, -1]) * unit.saturating_mul(k << j.min(40));
+            if (cal::MIN_DAY..=cal::MAX_DAY).contains(&d1) {
+                rec.bin("format/stride-pair(2^j days or weeks apart, consecutive calls)");
+                fmt_judge(rec, d1, true);
+                fmt_judge(rec, d0, true);
+            }
+        }
+    }));
     let ys = &years;
     let thin: u64 = if ctx.quick() { 6 } else { 1 };
     wls.push(Workload::cases("set_day_of_year_year_grid", years.len() as u64, move |rec, idx, rng| {
@@ -368,6 +410,23 @@ pub fn run(ctx: &Ctx) -> PropResult {
     wls.push(Workload::cases("set_day_of_year_datetime_with_offset", ctx.count(60_000, 2_000_000), |rec, _, rng| {
         use crate::model::instant::{D, NS};
         // instants within a day of a New Year (both sides), offsets that do / do not move the local year
+        if rng.chance(1, 6) {
+            // the two partly representable years: receivers anywhere in their representable part, N around the
+            // last / first representable day (193 = 12 July 5879611, 174 = 23 June -5879611), offsets of both signs
+            use crate::model::instant::{gen_offset, MAX_INSTANT, MIN_INSTANT};
+            let hi = rng.chance(1, 2);
+            let span = if hi { 192i128 } else { 191 };
+            let i = if hi { MAX_INSTANT - 2 * D - rng.range_i128(0, (span - 3) * D) } else { MIN_INSTANT + 2 * D + rng.range_i128(0, (span - 3) * D) };
+            let off = if rng.chance(1, 3) { 0 } else { gen_offset(rng) };
+            let edge = if hi { 193i64 } else { 174 };
+            let doy = match rng.below(3) {
+                0 => (edge + rng.range_i64(-2, 2)) as u32,
+                1 => *rng.pick(&[1u32, 2, 365, 366, 100, 200]),
+                _ => 1 + rng.below(366) as u32,
+            };
+            judge_setter_with_offset(rec, i, off, doy);
+            return;
+        }
         let a = match rng.below(3) {
             0 => rng.range_i64(-3000, 3000),
             1 => *rng.pick(&[-4i64, -3, 0, 1, 1900, 2000, 2023, 2024, 2025, 2100]),
